@@ -354,15 +354,18 @@ fn case_json(op: &Op, idx: u64) -> Value {
     json!({"op": op.name, "index": idx, "inputs": (op.describe)(idx), "result_in_this_build": words_json(&o)})
 }
 
-fn differential(r: &Report, op: &Op, mine: &[RangeOut], others: &[Other], tier: &str) {
+fn differential(r: &Report, op: &Op, mine: &[RangeOut], others: &[Other], prefetched: &[Option<Vec<Vec<String>>>], tier: &str) {
     let cs = chunks(op.n);
-    for other in others {
-        let lines = match run_sub(&other.bin, tier, &["--digests".into(), "--op".into(), op.name.into()]) {
-            Ok(l) => l,
-            Err(e) => {
-                r.machinery_error(&e);
-                continue;
-            }
+    for (oi, other) in others.iter().enumerate() {
+        let lines = match &prefetched[oi] {
+            Some(l) => l.clone(),
+            None => match run_sub(&other.bin, tier, &["--digests".into(), "--op".into(), op.name.into()]) {
+                Ok(l) => l,
+                Err(e) => {
+                    r.machinery_error(&e);
+                    continue;
+                }
+            },
         };
         let theirs: Vec<&Vec<String>> = lines.iter().filter(|x| x.len() >= 5 && x[0] == "D" && x[1] == op.name).collect();
         if theirs.len() != mine.len() {
@@ -480,6 +483,14 @@ fn main() {
     r.assume("sin/cos entry points with NaN/Inf angles are outside the stated domain: exercised separately and reported under profile_dependent_panics, excluded from the differential");
     r.assume("libm (f64, software) is the accuracy reference for |x| <= 64 with tolerance 1e-4; IEEE-754 f32 sqrt of std is the reference for det_sqrt");
 
+    // quick: one `--digests` run per other build for all ops (4 process spawns in total);
+    // thorough: one run per op so that the wall cap can stop between ops.
+    let prefetched: Vec<Option<Vec<Vec<String>>>> = if r.quick() {
+        others.par_iter().map(|o| run_sub(&o.bin, tier, &["--digests".into()]).ok()).collect()
+    } else {
+        others.iter().map(|_| None).collect()
+    };
+
     let mut total_special = 0u64;
     let mut per_op = serde_json::Map::new();
     let mut sampled = 0;
@@ -516,7 +527,7 @@ fn main() {
             r.sample(case_json(op, idx.min(op.n - 1)));
             sampled += 1;
         }
-        differential(&r, op, &mine, &others, tier);
+        differential(&r, op, &mine, &others, &prefetched, tier);
         per_op.insert(op.name.to_string(), json!({"inputs": op.n, "chunks": cs.len(), "distinct_outputs_seen": nd, "special_inputs": st.special_inputs,
             "panics_finite_inputs": st.panics_in_domain, "panics_nonfinite_inputs": st.panics_outside_domain, "skipped_outside_domain": st.empty_outputs, "wall_s": ((r.elapsed_s() - t0) * 100.0).round() / 100.0}));
         println!("[C19] {:<18} n={:<11} distinct>={:<5} special={:<10} {:.1}s", op.name, op.n, nd, st.special_inputs, r.elapsed_s() - t0);
@@ -526,6 +537,7 @@ fn main() {
     // outside-domain entry points (non-finite angles): evidence only
     let mut pdp = serde_json::Map::new();
     let mut pd_total = 0u64;
+    let remote: Vec<Vec<Vec<String>>> = others.par_iter().map(|o| run_sub(&o.bin, tier, &["--panics".into()]).unwrap_or_default()).collect();
     for op in &outside {
         let mut o = Out::new();
         let mut p = 0u64;
@@ -539,10 +551,14 @@ fn main() {
         let mut e = serde_json::Map::new();
         e.insert("inputs".into(), json!(op.n));
         e.insert("main(verif: opt2, debug-assertions)".into(), json!(format!("{p} panics")));
-        for other in &others {
-            if let Ok(l) = run_sub(&other.bin, tier, &["--panics".into(), "--op".into(), op.name.into()]) {
-                if let Some(x) = l.iter().find(|x| x.len() >= 4 && x[0] == "P") {
-                    e.insert(other.tag.into(), json!(format!("{} panics; first non-panicking result {}", x[3], x[4..].join(" "))));
+        for (oi, other) in others.iter().enumerate() {
+            // op names contain spaces: "P <name...> <n> <panics> <first result>" — match on the joined prefix
+            for x in &remote[oi] {
+                let line = x.join(" ");
+                if let Some(rest) = line.strip_prefix(&format!("P {} ", op.name)) {
+                    let mut it = rest.splitn(3, ' ');
+                    let (_n, pn, first) = (it.next().unwrap_or(""), it.next().unwrap_or("?"), it.next().unwrap_or(""));
+                    e.insert(other.tag.into(), json!(format!("{pn} panics; first non-panicking result {first}")));
                 }
             }
         }
